@@ -84,7 +84,16 @@ func (g *gcmAsm) Seal(dst, nonce, plaintext, data []byte) []byte {
 	}
 
 	if len(plaintext) > 0 {
-		gcmSm4Enc(&g.bytesProductTable, out, plaintext, &counter, &tagOut, g.cipher.enc[:])
+		if r := len(plaintext) % BlockSize; r != 0 && r+g.tagSize < BlockSize {
+			// The assembly stores a whole block at the final partial block and relies on
+			// the room of the tag behind it. With a truncated tag that store would run
+			// past ciphertext||tag: encrypt into a buffer with enough room and copy.
+			buf := make([]byte, len(plaintext)+BlockSize)
+			gcmSm4Enc(&g.bytesProductTable, buf, plaintext, &counter, &tagOut, g.cipher.enc[:])
+			copy(out, buf[:len(plaintext)])
+		} else {
+			gcmSm4Enc(&g.bytesProductTable, out, plaintext, &counter, &tagOut, g.cipher.enc[:])
+		}
 	}
 	gcmSm4Finish(&g.bytesProductTable, &tagMask, &tagOut, uint64(len(plaintext)), uint64(len(data)))
 	copy(out[len(plaintext):], tagOut[:])
